@@ -121,3 +121,6 @@ class Tolerancing:
 
         for compensator in self.compensator.variables:
             compensator.reset()
+
+        # re-apply pickups and solves, which follow the reset quantities
+        self.optic.update()
